@@ -331,7 +331,7 @@ func (c *child) expired(gen int64, d time.Duration) {
 		}()
 		select {
 		case <-done:
-		case <-time.After(3 * time.Second):
+		case <-time.After(2 * time.Second):
 			h.SecondaryBlocked = true
 			h.SecondaryStep, _ = secStep.Load().(string)
 		}
